@@ -75,6 +75,14 @@ def size_values(f):
     return out
 
 
+def strip_ext(f, ref):
+    i = f.get(ref) if isinstance(ref, str) else None
+    while i is not None and i.op in ('zext', 'sext', 'trunc'):
+        ref = i.o[0]
+        i = f.get(ref) if isinstance(ref, str) else None
+    return ref
+
+
 def run(m, rep, tier):
     from .. import canaries
     canaries.run(m, rep, ('nw',))
@@ -232,6 +240,39 @@ def run(m, rep, tier):
             t6.violation(site, '; '.join(bad), floc(m, f), {})
         else:
             t6.ok(site, '; '.join(notes), floc(m, f))
+
+    # ---- T9 --------------------------------------------------------------------------
+    t9 = rep.rule('T9', 'compare looks at both strings to their ends: a bounded comparison is not bounded by one operand\'s length alone', floor=2)
+    for pre in PREFIXES:
+        for nm in ('compare', 'compare_str'):
+            f = m.ifn(pre + nm)
+            if f is None:
+                continue
+            site = pre + nm
+            full = [c for c in f.all_insts() if c.op == 'call' and c.callee in ('strcmp', 'wcscmp')]
+            bounded = [c for c in f.all_insts() if c.op == 'call' and c.callee in ('strncmp', 'wcsncmp', 'memcmp', 'wmemcmp')]
+            szv = size_values(f)
+            badc = []
+            for c in bounded:
+                n = strip_ext(f, c.o[2]) if len(c.o) > 2 else None
+                ni = f.get(n) if isinstance(n, str) else None
+                while ni is not None and ni.op in ('mul', 'shl') and const_int(ni.o[1]) is not None:
+                    n = strip_ext(f, ni.o[0])
+                    ni = f.get(n) if isinstance(n, str) else None
+                if n in szv:
+                    badc.append('%s() at %s is bounded by the length of one operand only: when that operand is a proper prefix of the other '
+                                '(or empty) the strings compare equal where strcmp / wcscmp order them' % (c.callee, c.loc()))
+            if badc:
+                t9.violation(site, '; '.join(badc), floc(m, f), {})
+            elif full and not bounded:
+                t9.ok(site, 'delegates to %s on the full strings' % full[0].callee, floc(m, f))
+            else:
+                t9.ok(site, 'NOT DECIDED: no unbounded C-library comparison found', floc(m, f))
+
+    # ---- T8 --------------------------------------------------------------------------
+    t8 = rep.rule('T8', 'no character pointer read before a reallocation of the storage is used after it', floor=6)
+    from .util import check_stale_base
+    check_stale_base(m, t8, sorted(ents), lambda a: a.fsteps[-1:] and a.fsteps[-1][1] == 'base' and any(x[0] == 'cstl_vector' for x in a.fsteps), 'the character storage pointer')
 
     # ---- T4 --------------------------------------------------------------------------
     t4 = rep.rule('T4', 'str() never returns NULL', floor=2)
